@@ -23,6 +23,8 @@ pub enum OutKind {
     Stdout,
     NewFile,
     Existing(String),
+    /// the output path is the input path
+    SameAsInput,
     MissingDir,
     IsDirectory,
 }
@@ -84,6 +86,10 @@ impl Case for CliCase {
                 let _ = std::fs::write(&p, c);
                 (Some(p), format!("file 1 {}", enc(c)))
             }
+            OutKind::SameAsInput => match &self.input {
+                InputKind::Bytes(b) => (Some(input_path.clone()), format!("file 1 {}", enc(&String::from_utf8_lossy(b)))),
+                _ => (Some(format!("{}/out.rs", dir)), "file 1 ~".into()),
+            },
             OutKind::MissingDir => (Some(format!("{}/no/such/dir/out.rs", dir)), "file 0 ~".into()),
             OutKind::IsDirectory => {
                 let p = format!("{}/outdir", dir);
@@ -182,7 +188,7 @@ impl Case for CliCase {
                 metrics: vec![("exit_0".into(), (exit == 0) as u64), ("exit_1".into(), (exit == 1) as u64), ("exit_other".into(), (exit != 0 && exit != 1) as u64)],
                 tags: vec![
                     format!("input:{}", self.label),
-                    format!("output:{}", match self.output { OutKind::Stdout => "stdout", OutKind::NewFile => "new-file", OutKind::Existing(_) => "existing-file", OutKind::MissingDir => "missing-directory", OutKind::IsDirectory => "is-a-directory" }),
+                    format!("output:{}", match self.output { OutKind::Stdout => "stdout", OutKind::NewFile => "new-file", OutKind::Existing(_) => "existing-file", OutKind::SameAsInput => "same-as-input", OutKind::MissingDir => "missing-directory", OutKind::IsDirectory => "is-a-directory" }),
                     format!("parser:{}", self.parser.clone().unwrap_or_else(|| "(default)".into())),
                     format!("sort:{}", self.sort.clone().unwrap_or_else(|| "(default)".into())),
                     format!("derive:{}", match &self.derive { None => "(default)", Some(d) if d.is_empty() => "empty", _ => "custom" }),
@@ -225,7 +231,7 @@ impl Case for CliCase {
                 InputKind::Directory => json!("directory"),
             },
             "label": self.label, "parser": self.parser, "derive": self.derive, "sort": self.sort,
-            "output": match &self.output { OutKind::Stdout => json!("stdout"), OutKind::NewFile => json!("new-file"), OutKind::Existing(c) => json!({"existing": c}), OutKind::MissingDir => json!("missing-directory"), OutKind::IsDirectory => json!("is-a-directory") }})
+            "output": match &self.output { OutKind::Stdout => json!("stdout"), OutKind::NewFile => json!("new-file"), OutKind::Existing(c) => json!({"existing": c}), OutKind::SameAsInput => json!("same-as-input"), OutKind::MissingDir => json!("missing-directory"), OutKind::IsDirectory => json!("is-a-directory") }})
     }
 }
 
@@ -243,6 +249,7 @@ impl CliCase {
             Value::String(s) => match s.as_str() {
                 "stdout" => OutKind::Stdout,
                 "new-file" => OutKind::NewFile,
+                "same-as-input" => OutKind::SameAsInput,
                 "missing-directory" => OutKind::MissingDir,
                 _ => OutKind::IsDirectory,
             },
